@@ -14,6 +14,7 @@ import (
 	"berty.tech/go-orbit-db/accesscontroller"
 	"berty.tech/go-orbit-db/iface"
 	"berty.tech/go-orbit-db/stores/operation"
+	"berty.tech/go-orbit-db/stores/replicator"
 	"berty.tech/go-orbit-db/verifhook"
 	cid "github.com/ipfs/go-cid"
 
@@ -343,4 +344,11 @@ func raceBuild() bool { return os.Getenv("VERIF_RACE") == "1" }
 func logHas(s iface.Store, c cid.Cid) bool {
 	_, ok := s.OpLog().Get(c)
 	return ok
+}
+
+func replState(s iface.Store) (string, bool) {
+	if vs, ok := s.Replicator().(replicator.VerifStater); ok {
+		return fmt.Sprintf("%+v", vs.VerifState()), true
+	}
+	return "", false
 }
